@@ -1,5 +1,6 @@
 import Driver.Common
 import Logrange.Model.MixTree
+import Logrange.Model.MixerErr
 import Logrange.Generated.C04
 /-! Model driver for C04 (multi-partition merge). One self-contained request per line (batch mode):
 
@@ -9,6 +10,10 @@ import Logrange.Generated.C04
 * `curs <k> (<hexline> <leaf>){k} | <op>*` — the same from a *map*: entries (tag line, source) in the iteration order given;
                                the order of the sources is what `newCursor` makes of it now (regenerated fact: sorted by
                                tag line), then reduction and operations as for `cur`
+* `mixe <etree> | <op>*`     — the error model (`Model/MixerErr.lean`): `<etree>` is `M <etree> <etree>` | `E <sticky 0|1> <k> <badidx>{k} <leaf>`
+                               (records of the leaf that cannot be read); ops as for `mix` (no append) plus `G` = Get, and once
+                               more if it failed; `D` = drain with that retry. `g`/`G` answer `err` for a non-EOF error, `d`/`D` end
+                               with `!err` when an error ended them.
 * `spec.merge <0|1> <leafrecs> | <leafrecs>` — SPEC: `mergeSpec bk xs ys` on two event lists given as leaves
 * `gj <maxLimit> <n>`       — `GetJournals` over `n` matching partitions: `ok <n>` / `err`, then `held=<sum of readers>`
 * `limit`                   — the regenerated merge limit of `newCursor`
@@ -94,6 +99,63 @@ def runOps (it : It Leaf) : List String → List String
       | _ => "bad-op" :: runOps it ops
     else "bad-op" :: runOps it ops
 
+def parseETree : Nat → List String → Option (It LeafE × List String)
+  | 0, _ => none
+  | fuel+1, "M" :: rest =>
+    match parseETree fuel rest with
+    | some (a, r1) => match parseETree fuel r1 with
+      | some (b, r2) => some (It.init a b, r2)
+      | none => none
+    | none => none
+  | _, "E" :: st :: k :: rest =>
+    let n := k.toNat?.getD 0
+    if rest.length < n then none else
+    match parseLeaf (rest.drop n) with
+    | some (l, r) => some (It.leaf { l := l, bad := (rest.take n).map (fun x => x.toNat?.getD 0), sticky := st == "1" }, r)
+    | none => none
+  | _, toks => (parseLeaf toks).map (fun (l, r) => (It.leaf { l := l }, r))
+
+def suffixE : It LeafE → String
+  | .leaf _ => ""
+  | .mix m _ _ => s!"/{m.st}{b01 m.eof1}{b01 m.eof2}"
+
+def showRes : Res → String
+  | .ok e => showEv e
+  | .eof => "eof"
+  | .err => "err"
+
+def getRetry (retry : Bool) (it : It LeafE) : It LeafE × Res :=
+  match it.getE with
+  | (it', .err) => if retry then it'.getE else (it', .err)
+  | r => r
+
+def drainE (retry : Bool) : Nat → It LeafE → It LeafE × List Ev × Bool
+  | 0, it => (it, [], false)
+  | f+1, it =>
+    match getRetry retry it with
+    | (it', .ok e) => let (it'', es, er) := drainE retry f it'.nextE; (it'', e :: es, er)
+    | (it', .eof) => (it', [], false)
+    | (it', .err) => (it', [], true)
+
+def totalRecsE : It LeafE → Nat
+  | .leaf s => s.l.les.length
+  | .mix _ a b => totalRecsE a + totalRecsE b
+
+def runOpsE (it : It LeafE) : List String → List String
+  | [] => []
+  | op :: ops =>
+    if op == "g" || op == "G" then
+      let (it', r) := getRetry (op == "G") it
+      (showRes r ++ suffixE it') :: runOpsE it' ops
+    else if op == "n" then let it' := it.nextE; ("." ++ suffixE it') :: runOpsE it' ops
+    else if op == "r" then let it' := it.release; ("." ++ suffixE it') :: runOpsE it' ops
+    else if op == "b1" then let it' := it.setBackward true; ("." ++ suffixE it') :: runOpsE it' ops
+    else if op == "b0" then let it' := it.setBackward false; ("." ++ suffixE it') :: runOpsE it' ops
+    else if op == "d" || op == "D" then
+      let (it', es, er) := drainE (op == "D") (totalRecsE it + 2) it
+      ((if es.isEmpty then "-" else ",".intercalate (es.map showEv)) ++ (if er then "!err" else "") ++ suffixE it') :: runOpsE it' ops
+    else "bad-op" :: runOpsE it ops
+
 def afterBar (toks : List String) : List String := (toks.dropWhile (· ≠ "|")).drop 1
 def beforeBar (toks : List String) : List String := toks.takeWhile (· ≠ "|")
 
@@ -104,6 +166,10 @@ def step (_ : Unit) (toks : List String) : Unit × String :=
   | "mix" :: rest =>
     match parseTree 1000 (beforeBar rest) with
     | some (it, []) => ((), " ".intercalate (runOps it (afterBar rest)))
+    | _ => ((), "bad-tree")
+  | "mixe" :: rest =>
+    match parseETree 1000 (beforeBar rest) with
+    | some (it, []) => ((), " ".intercalate (runOpsE it (afterBar rest)))
     | _ => ((), "bad-tree")
   | "cur" :: k :: rest =>
     match parseLeaves (k.toNat?.getD 0) (beforeBar rest) with
